@@ -79,6 +79,20 @@ def cases(tier, seed):
                         # same levels split by 1e-10 with a user-supplied atol = 1e-6
                         out.append(dict(sizes=list(sizes), E=E3, k=1, support=[[1]], pattern="dense", fd=fd, mask=None,
                                         hermitian=True, repr=rep, vset=0, total=3, noise=1e-10, atol=1e-6))
+    # element-level sparsity of the coupling blocks: strictly lower / upper triangular blocks between blocks of
+    # size >= 2 (a block is non-zero although one of its triangles vanishes)
+    for sizes in ((2, 2), (2, 2, 1), (1, 2, 2)) if tier == "quick" else ((2, 2), (2, 2, 1), (1, 2, 2), (3, 3), (2, 3)):
+        for E in lattice.level_patterns(sizes):
+            if len({tuple(e) for e in E}) < len(E) and sum(sizes) > 4:
+                continue
+            for pat in ("lowtri", "uptri"):
+                for sup in ([[1]], [[1], [2]]):
+                    for fd in ([], list(range(len(sizes)))):
+                        for rep in ("sympy", "dense", "csr"):
+                            if rep == "sympy" and sum(sizes) > 5:
+                                continue
+                            out.append(dict(sizes=list(sizes), E=E, k=1, support=sup, pattern=pat, fd=fd, mask=None,
+                                            hermitian=True, repr=rep, vset=0, total=3))
     # every admissible symmetric mask on each block in turn
     for st in lattice.mask_structures(3 if tier == "quick" else 4, hermitian=True):
         for rep in ("sympy", "dense", "csr"):
